@@ -91,6 +91,28 @@ func runC07(c *Ctx) {
 	F := model.FindFields(c.P)
 	R.Rule("C07.R7", "URLs the policy allows are not rejected: with URL checking on, validURL returns false only for a tabled reason — white space outside a data: URL, a parse error, a non-empty scheme not admitted by the scheme table / patterns / custom checks, or a scheme-less URL while relative URLs are off or the re-serialised URL is empty")
 	c03ValidURL(c, F, "C07.R7")
+	R.Rule("C07.R12", "attribute values are rewritten only where the policy says so (= C20.R2, cited): apart from the appended rel tokens every store to an attribute's Val in sanitizeAttrs is a constant, a projection of the old value, or the result of validURL / the src rewriter — a value re-assembled by the sanitiser (split and re-joined, re-cased, re-quoted) no longer passes unchanged")
+	{
+		sub := &Ctx{P: c.P, R: newScratchReport(), Tier: c.Tier, VerifDir: c.VerifDir}
+		runC20(sub)
+		n12 := 0
+		for _, o := range sub.R.Obls {
+			if o.Rule != "C20.R2" {
+				continue
+			}
+			n12++
+			k := strings.TrimPrefix(o.Key, "C20.R2|")
+			switch o.Status {
+			case "discharged":
+				R.OK("C07.R12", "C20.R2:"+k, o.Construct, o.Pos, o.Reason)
+			case "undecided":
+				R.Unknown("C07.R12", "C20.R2:"+k, o.Construct, o.Pos, o.Reason)
+			default:
+				R.Fail("C07.R12", "C20.R2:"+k, o.Construct, o.Pos, o.Reason)
+			}
+		}
+		R.Role("C07.R12", "rewrites of attribute values judged by C20.R2", n12, 3)
+	}
 	R.Rule("C07.R11", "a result handed out stays as returned (= C13.R1, cited): no sanitising path writes to memory that outlives the call, so the bytes of a conforming document that was returned are not overwritten by a later call")
 	c13SharedWrites(c, "C07.R11", "the bytes of a result already returned can be overwritten by a later call: the conforming document the caller holds is no longer what was returned", true)
 	R.Rule("C07.R10", "the default handler is the last resort: css.GetDefaultHandler(property) is stored into a style rule only on paths where the builder's handler is nil, its enum empty and its regexp nil — next to a user-supplied matcher it would take precedence in sanitizeStyles")
